@@ -148,7 +148,7 @@ func checkC15(c *Ctx) error {
 	return nil
 }
 
-var c15Entries = []string{"Diagnostics", "Duplicate", "Deterministic"}
+var c15Entries = []string{"Diagnostics", "Duplicate", "Deterministic", "CompileWrites"}
 
 // checkC09 is the reduced claim of C09 (DESIGN.md 5): one generation is independent of the order
 // of its two analysis tasks and of map iteration order, the tasks' write footprints are
